@@ -326,3 +326,102 @@ def fd_relation(f, size):
     except (AttributeError, OSError, ValueError):
         return "none"
     return "same" if n == size else "less" if n < size else "more"
+
+
+# ------------------------------------------------------------------ faults of the caller's file object
+# (notes/SIZE_STRESS.md part 5).  ArFile(fileobj=f) works on a file object the CALLER supplies; FaultProxy presents
+# any of the kinds above and, when armed for the duration of ONE call on the archive / a member, fails at a chosen
+# step of that call: the at-th invocation of seek / read / readline / tell raises the given exception object (before
+# doing anything, or -- after=True -- once the underlying operation has moved the stream), or the at-th read /
+# readline returns SHORT (only `keep` bytes, the stream positioned behind them; keep = 0 is an early end of file).
+# Otherwise everything is forwarded unchanged (attributes such as fileno / name / mode / closed included).
+
+class InjectedFault(Exception):
+    """a private exception class no library code knows about"""
+
+
+FAULT_EXC = {"OSError": lambda: OSError(5, "Input/output error (injected)"),
+             "ValueError": lambda: ValueError("I/O operation on closed file. (injected)"),
+             "KeyError": lambda: KeyError("injected"),
+             "EOFError": lambda: EOFError("Compressed file ended before the end-of-stream marker was reached (injected)"),
+             "private": lambda: InjectedFault("injected"),
+             "InterruptedError": lambda: InterruptedError(4, "Interrupted system call (injected)")}
+
+
+class FaultProxy(object):
+    def __init__(self, inner):
+        self._inner = inner
+        self._plan = None
+        self._n = 0
+        self.fired = None        # None | ("raise", exception object, method, step) | ("short", asked, kept, method, step)
+        self.calls = 0           # invocations seen while armed (evidence: how many steps the call had)
+
+    def arm(self, plan):
+        """plan: {"at": j >= 1, "exc": name of FAULT_EXC, "after": bool} or {"at": j, "short": bytes to keep}"""
+        self._plan = dict(plan)
+        self._n = 0
+        self.calls = 0
+        self.fired = None
+
+    def disarm(self):
+        self._plan = None
+        f = self.fired
+        self.fired = None
+        return f
+
+    def _step(self, name, call, reading):
+        plan = self._plan
+        if plan is None or self.fired is not None:
+            return call()
+        self.calls += 1
+        short = "short" in plan
+        if short and not reading:
+            return call()
+        self._n += 1
+        if self._n != plan["at"]:
+            return call()
+        if short:
+            start = self._inner.tell()
+            data = call()
+            keep = plan["short"]
+            if keep < 0:                      # -1: all but the last byte
+                keep = max(0, len(data) + keep)
+            if len(data) <= keep:
+                return data                   # nothing to cut: not a fault
+            self._inner.seek(start + keep)
+            self.fired = ("short", len(data), keep, name, self._n)
+            return data[:keep]
+        exc = FAULT_EXC[plan["exc"]]()
+        self.fired = ("raise", exc, name, self._n)
+        if plan.get("after"):
+            call()
+        raise exc
+
+    def seek(self, *a, **k):
+        return self._step("seek", lambda: self._inner.seek(*a, **k), False)
+
+    def tell(self):
+        return self._step("tell", lambda: self._inner.tell(), False)
+
+    def read(self, *a, **k):
+        return self._step("read", lambda: self._inner.read(*a, **k), True)
+
+    def readline(self, *a, **k):
+        return self._step("readline", lambda: self._inner.readline(*a, **k), True)
+
+    def __getattr__(self, name):
+        return getattr(self._inner, name)
+
+    def __iter__(self):
+        return iter(self._inner)
+
+
+def chained(err, exc):
+    """is `exc` the exception `err` or chained to it (raise ... from / implicit context)?"""
+    seen = 0
+    while err is not None and seen < 10:
+        if err is exc:
+            return True
+        err = err.__cause__ or err.__context__
+        seen += 1
+    return False
